@@ -47,6 +47,7 @@ func runC18(c *core.Ctx) {
 	c18Frame(c, root)
 	c18Codec(c, root, edgePkg)
 	c18BatchJSON(c, edgePkg)
+	ruleDerivedGroupID(c, edgePkg, "C18.groupid")
 	c18Shift(c, root)
 	c18BatchTime(c, root)
 	c18Reader(c, root)
